@@ -25,7 +25,7 @@ OBLIGATIONS = [
     ob('idiff_spelling_WDHMS_2digits_sign0', ['SPELL', 'SHAPE=31', 'NDIG=2', 'SIGN=0'], enc=['idiff_strp'], sym='every digit of every component',
        bounds='layout WDHMS with 2 digit(s) per component', unwindset=dict(IDP, **{'harness.*': 65, 'sym_load.*': 17}), tiers=('quick', 'thorough')),
     ob('idiff_spelling_WDHMS_3digits_sign1', ['SPELL', 'SHAPE=31', 'NDIG=3', 'SIGN=1'], enc=['idiff_strp'], sym='every digit of every component',
-       bounds='layout +WDHMS with 3 digit(s) per component', unwindset=dict(IDP, **{'harness.*': 65, 'sym_load.*': 17}), tiers=('quick', 'thorough')),
+       bounds='layout +WDHMS with 3 digit(s) per component', unwindset=dict(IDP, **{'harness.*': 65, 'sym_load.*': 17}), tiers=('thorough',), timeout=1800),
     ob('idiff_spelling_W_3digits_sign2', ['SPELL', 'SHAPE=1', 'NDIG=3', 'SIGN=2'], enc=['idiff_strp'], sym='every digit of every component',
        bounds='layout -W with 3 digit(s) per component', unwindset=dict(IDP, **{'harness.*': 65, 'sym_load.*': 17}), tiers=('quick', 'thorough')),
     ob('idiff_spelling_D_3digits_sign0', ['SPELL', 'SHAPE=2', 'NDIG=3', 'SIGN=0'], enc=['idiff_strp'], sym='every digit of every component',
